@@ -69,7 +69,52 @@ DHX = {1024: (0xa957caa5cfba76318d1f1fafb6d5957294260ab8c953d36d1d4c5334f83dc47a
     2048: (0x9ce22ece572239734dfdcfed47ac262fc8b4083f687c5b45bb129011145de7334795c36ef7d1846e1ebcfbc4917bfefd31110cc40a3d56eee3de94512ac7362d9564c4caf00b3f5b5ec1e64f89fb05cc65701a4f05efa0af1c3e3b980dbeedd63cb5a849eea8ef18392139a5fc217a69eec26894d8f4ccaf06d180b85ece36241cc0a08db9bee2f3726cead4ad9cdaf902049c26c4acfc1e363904cf03b92c0497f8213ab41743b918a25fc84c13eac3b25ebbbc7ed9562d67037b1adb94e40260d1e511962bf32ee5f975a535363f89ae516fad6e2d8188615cc3b6bc06dab11000c1693f0cd42c00ccae7171619900da356cdc608518a15c16,
         0xaee407fe09c72e6fd3f9202e73d34ef256f75822d091300bc5c314d62089fe5ecded76beb4b93979bbeafc21e8bf41736b679c3981461aee8cd3800cde5c0e2d2ab5e26121074c3fd42d922cfd865fb5e6020ab56ccbd27fbfb8990d9dd9598af2c7c2674e75d1eb15b5d8cfe6b20b4a123ae42988b8f3716d4ae9934c6a17158593f6d745275af28091f99207b914c1408eedce3f4141400428f76d791ba89f1513b8c28d459c460913a78eb0a07848e33f2d76ab10940cd100b2d45ada2d3578ece007266c66e1c927e2e1ecf4308962824c5be9a177fb7ab0d43b3b92a893ff42c9f11a581c17138e71a6f1d1e81c02122d05972380d4d5f5)}
 
+# Peers whose shared secret with the FIRST fixed key of each group/curve starts with one / two zero bytes (the boundary at which
+# an implementation that strips or mis-aligns leading zeros goes wrong; 1 in 256 / 65536 random exchanges).  Found ONCE by the
+# deterministic search of `python3 keys_fixed.py --search-leading-zero` (smallest k >= 2 with exactly that many leading zero bytes):
+#   DH:   peer public value = g^k mod p          ECDH: peer point = k*G
+#   X25519/X448: peer secret = SHAKE256(b'c13-leading-zero-<i>'); 'lead' = first byte of the (little-endian) output string is 0,
+#                'trail' = last byte is 0 (the most significant byte of u)
+LEADZ = {'dh': {'modp1024': {1: 96, 2: 32292}, 'modp2048': {1: 53, 2: 79111}, 'dsa1024': {1: 299, 2: 5953}},
+         'ec': {'P-256': {1: 27, 2: 88197}, 'P-384': {1: 393, 2: 1590}, 'P-521': {1: 4, 2: 1071}},
+         'x': {'X25519': {'lead': 44, 'trail': 77}, 'X448': {'lead': 387, 'trail': 254}}}
+
 import functools
+@functools.lru_cache(None)
+def leadz_peers():
+    """-> {'dh': {group: {1: DHKey, 2: DHKey}}, 'ec': {curve: {1: ECKey, 2: ECKey}}, 'x': {curve: {'lead': XKey, 'trail': XKey}}} (peer keys)"""
+    import hashlib, refcrypt as R; K = load(); out = {'dh': {}, 'ec': {}, 'x': {}}
+    for g, d in LEADZ['dh'].items(): own = K['dh'][g][0]; out['dh'][g] = {n: R.DHKey(own.p, own.g, k) for n, k in d.items()}
+    for c, d in LEADZ['ec'].items(): out['ec'][c] = {n: R.ECKey(R.CURVES[c], k) for n, k in d.items()}
+    for c, d in LEADZ['x'].items(): own = K['x'][c][0]; out['x'][c] = {n: R.XKey(c, hashlib.shake_256(b'c13-leading-zero-%d' % i).digest(len(own.sk))) for n, i in d.items()}
+    return out
+def search_leading_zero():
+    """the search that produced LEADZ (Z_k = Z_(k-1) * y_own resp. P_k = P_(k-1) + Q_own: one multiplication / point addition per candidate)"""
+    import hashlib, refcrypt as R; K = load(); out = {'dh': {}, 'ec': {}, 'x': {}}
+    def cls(b): return 2 if b[:2] == b'\0\0' and b[2] else 1 if b[0] == 0 and b[1] else 0
+    for g, (own, _) in K['dh'].items():
+        Z = own.y; f = {}
+        for k in range(2, 1 << 20):
+            Z = Z * own.y % own.p; n = cls(Z.to_bytes(own.k, 'big'))
+            if n and n not in f: f[n] = k
+            if len(f) == 2: break
+        out['dh'][g] = f
+    for c, (own, _) in K['ec'].items():
+        cv = own.c; P = own.Q; f = {}
+        for k in range(2, 1 << 20):
+            P = cv.mul(2, own.Q) if k == 2 else cv.add(P, own.Q); n = cls(P[0].to_bytes(cv.flen, 'big'))
+            if n and n not in f: f[n] = k
+            if len(f) == 2: break
+        out['ec'][c] = f
+    for c, (own, _) in K['x'].items():
+        f = {}
+        for i in range(1, 1 << 16):
+            z = own.derive(R.XKey(c, hashlib.shake_256(b'c13-leading-zero-%d' % i).digest(len(own.sk))).pk)
+            if z[0] == 0 and z[1] and 'lead' not in f: f['lead'] = i
+            if z[-1] == 0 and z[-2] and 'trail' not in f: f['trail'] = i
+            if len(f) == 2: break
+        out['x'][c] = f
+    return out
 @functools.lru_cache(None)
 def load():
     """-> dict of refcrypt key objects: rsa[bits], dsa[(L,N)], dh[name] = (own, peer), ec[curve] = (own, peer), ed[...], x[...]"""
@@ -185,4 +230,14 @@ if __name__ == '__main__':
     k = load()
     for name, (a, b) in k['dh'].items(): assert R.is_prime(a.p) and a.derive(b.y) == b.derive(a.y), name
     for name, (a, b) in k['ec'].items(): assert a.ecdh(b.Q) == b.ecdh(a.Q), name
-    print('keys_fixed: all stored numbers consistent')
+    if '--search-leading-zero' in sys.argv: print(search_leading_zero()); sys.exit(0)
+    L = leadz_peers()
+    for g, d in L['dh'].items():
+        own = k['dh'][g][0]
+        for n, peer in d.items(): z = own.derive(peer.y); assert z[:n] == bytes(n) and z[n] != 0 and peer.derive(own.y) == z, ('dh', g, n)
+    for c, d in L['ec'].items():
+        own = k['ec'][c][0]
+        for n, peer in d.items(): z = own.ecdh(peer.Q); assert z[:n] == bytes(n) and z[n] != 0 and peer.ecdh(own.Q) == z, ('ec', c, n)
+    for c, d in L['x'].items():
+        own = k['x'][c][0]; z = own.derive(d['lead'].pk); assert z[0] == 0 and z[1] != 0, ('x', c, 'lead'); z = own.derive(d['trail'].pk); assert z[-1] == 0 and z[-2] != 0, ('x', c, 'trail')
+    print('keys_fixed: all stored numbers consistent (incl. %d leading-zero shared-secret peers)' % sum(len(d) for t in L.values() for d in t.values()))
